@@ -709,6 +709,12 @@ func (m *mappedFile) newCounter(name string) (v *atomic.Uint64, m1 *mappedFile, 
 	if len(name) > maxNameLen {
 		return nil, nil, fmt.Errorf("counter name too long")
 	}
+	if len(name) == 0 {
+		// A record with name length 0 is indistinguishable from unused space:
+		// entryAt rejects it, so linking one makes every later lookup in its
+		// hash bucket, by any process sharing the file, fail as corrupt.
+		return nil, nil, fmt.Errorf("counter name is empty")
+	}
 	orig := m
 	defer func() {
 		if m != orig {
